@@ -110,6 +110,56 @@ func c07EscrowFacts(c *ctxT, sb *strings.Builder) {
 			}
 		}
 	}
+	// the tallied-proposal callback: where the refund / burn sits relative to the outcome switch
+	var active []string
+	if fd := c.findFunc(c07GovMod, "", "EndBlocker"); fd != nil && fd.Body != nil {
+		ast.Inspect(fd.Body, func(n ast.Node) bool {
+			fl, ok := n.(*ast.FuncLit)
+			if !ok || len(active) > 0 {
+				return true
+			}
+			if !c07HasCall(c, fl.Body, func(f string, _ *ast.CallExpr) bool { return strings.HasSuffix(f, ".Tally") }) {
+				return true
+			}
+			isSettle := func(f string, _ *ast.CallExpr) bool {
+				return strings.HasSuffix(f, ".RefundAndDeleteDeposits") || strings.HasSuffix(f, ".DeleteAndBurnDeposits")
+			}
+			for _, st := range fl.Body.List {
+				switch x := st.(type) {
+				case *ast.SwitchStmt:
+					word := "outcomeSwitch"
+					if c07HasCall(c, x, isSettle) {
+						word = "outcomeSwitch+settle"
+					}
+					active = append(active, word)
+					continue
+				case *ast.IfStmt:
+					if c07HasCall(c, x.Body, isSettle) && !c07HasCall(c, x.Body, func(f string, _ *ast.CallExpr) bool { return f == "failUnsupportedProposal" }) {
+						active = append(active, "settle:"+squash(c.src(x.Cond)))
+						continue
+					}
+				}
+				switch {
+				case c07HasCall(c, st, func(f string, _ *ast.CallExpr) bool { return strings.HasSuffix(f, ".Tally") }):
+					active = append(active, "tally")
+				case c07HasCall(c, st, isSettle) && !c07HasCall(c, st, func(f string, _ *ast.CallExpr) bool { return f == "failUnsupportedProposal" }):
+					active = append(active, "settle:always")
+				case c07HasCall(c, st, func(f string, _ *ast.CallExpr) bool { return strings.HasSuffix(f, ".ActiveProposalsQueue.Remove") }) && !c07HasCall(c, st, func(f string, _ *ast.CallExpr) bool { return f == "failUnsupportedProposal" }):
+					active = append(active, "dequeue")
+				case c07HasCall(c, st, func(f string, _ *ast.CallExpr) bool { return strings.HasSuffix(f, ".SetProposal") }):
+					active = append(active, "setProposal")
+				}
+			}
+			return true
+		})
+	}
+	var arows []string
+	for _, b := range active {
+		arows = append(arows, leanStr(b))
+	}
+	fmt.Fprintf(sb, "/-- the callback of the active-queue walk of gov.EndBlocker: tally, refund / burn (with its condition), queue removal, the outcome switch, the proposal write — in source order -/\ndef govActiveSteps : List String := %s\n\n", leanList(arows))
+	c.facts["C07.govActiveSteps"] = active
+
 	var rows []string
 	for _, b := range branch {
 		rows = append(rows, leanStr(b))
